@@ -1089,6 +1089,7 @@ def cleanup(record, collect_every=16):
     if world is not None:
         world.seam.pins.clear()
         world.seam.models.clear()
+        world.seam.revoked.clear()
         world.tasks.clear()
         world.res.clear()
         world.scopes.clear()
